@@ -29,7 +29,8 @@ import (
 type rcResult struct {
 	kind string // "connect", "send", "recv", "ping", "close"
 	idx  int
-	enc  []byte // connect: the CONNACK returned; recv: the RECV packet returned (re-encoded)
+	enc  []byte            // connect: the CONNACK returned; recv: the RECV packet returned (re-encoded)
+	pkt  *frame.RecvPacket // recv: the packet itself, kept by the caller without copying
 	res  wkclient.SendResult
 	err  error
 }
@@ -77,8 +78,9 @@ type realClient struct {
 	taintWrite     int    // first corrupted write (-1 none)
 	disconnectAt   int    // index of a DISCONNECT write (-1 none)
 	eofSeen        bool
-	explicitAck    bool    // the caller acknowledges every packet Recv returned
-	ackQueue       []int64 // message ids waiting for their RECVACK
+	held           []heldRecv // clean packets Recv returned, still referenced by the caller
+	explicitAck    bool       // the caller acknowledges every packet Recv returned
+	ackQueue       []int64    // message ids waiting for their RECVACK
 }
 
 type rcDialer struct{ rc *realClient }
@@ -334,9 +336,31 @@ func (e *engine) doRCRecv(cl *client) {
 		res := rcResult{kind: "recv", err: err}
 		if err == nil && pkt != nil {
 			res.enc, _ = rc.e.q.codec.EncodeFrame(pkt, frame.LatestVersion)
+			res.pkt = pkt // the application keeps the packet while the reader goes on reading
 		}
 		rc.post(res)
 	}()
+}
+
+type heldRecv struct {
+	pkt   *frame.RecvPacket
+	write int // index of the RECV frame in the server's writes
+	idx   int
+}
+
+// recheckHeld: a packet handed to the caller must keep the content of the frame
+// that was written, whatever the reader decodes afterwards.
+func (e *engine) recheckHeld(cl *client, writes []outWrite) bool {
+	q := e.q
+	rc := cl.rc
+	for _, h := range rc.held {
+		enc, err := q.codec.EncodeFrame(h.pkt, frame.LatestVersion)
+		if err != nil || string(enc) != string(writes[h.write].data) {
+			q.fail("client-frames-mismatch", "recv-changed-after-delivery", fmt.Sprintf("c%d: packet #%d returned by Recv matched the RECV frame written when it was delivered but differs now, after the reader processed more of the stream: now %s, written %s", cl.k, h.idx, short(enc), short(writes[h.write].data)), nil)
+			return false
+		}
+	}
+	return true
 }
 
 func (e *engine) doRCClose(cl *client) {
@@ -372,8 +396,25 @@ func (e *engine) doRCPush(cl *client) {
 		f = &frame.SubackPacket{SubNo: fmt.Sprintf("s%d", n), ChannelID: "ch1", ChannelType: 2, Action: frame.Subscribe, ReasonCode: frame.ReasonSuccess}
 	default:
 		size := []int{6, 0, 60, 130, 5000}[tp.Weighted([]int{4, 1, 2, 2, 1})]
-		f = &frame.RecvPacket{Setting: frame.SettingNoEncrypt, MessageID: int64(n), MessageSeq: uint64(n), ClientMsgNo: fmt.Sprintf("p%d", n), Timestamp: 1,
+		p := &frame.RecvPacket{Setting: frame.SettingNoEncrypt, MessageID: int64(n), MessageSeq: uint64(n), ClientMsgNo: fmt.Sprintf("p%d", n), Timestamp: 1,
 			ChannelID: "push", ChannelType: 2, FromUID: "srv", Payload: pattern(size, n+cl.k)}
+		if tp.Weighted([]int{2, 3}) == 1 {
+			// any combination of setting bits; the session is plaintext either way
+			p.Setting = 0
+			for _, s := range []frame.Setting{frame.SettingNoEncrypt, frame.SettingReceiptEnabled, frame.SettingSignal, frame.SettingTopic, frame.SettingStream} {
+				if tp.Intn(2) == 1 {
+					p.Setting.Set(s)
+				}
+			}
+			if p.Setting.IsSet(frame.SettingTopic) {
+				p.Topic = fmt.Sprintf("topic%d", n)
+			}
+			if tp.Intn(3) == 0 {
+				p.NoPersist, p.RedDot, p.SyncOnce = tp.Intn(2) == 1, tp.Intn(2) == 1, tp.Intn(2) == 1
+				p.MsgKey = fmt.Sprintf("key%d", n)
+			}
+		}
+		f = p
 	}
 	err := q.issue(c, "push", fmt.Sprint(n), func() error { return sess.WriteFrame(f) })
 	q.r.Logf("  push c%d #%d %v err=%v", cl.k, n, f.GetFrameType(), err != nil)
@@ -630,6 +671,12 @@ func (e *engine) observeRC(cl *client) {
 		}
 	}
 
+	// packets delivered earlier are compared again after every step: the reader may
+	// have read more of the stream since
+	if !e.recheckHeld(cl, writes) {
+		return
+	}
+
 	sort.SliceStable(results, func(i, j int) bool {
 		if results[i].kind != results[j].kind {
 			return results[i].kind < results[j].kind
@@ -735,6 +782,9 @@ func (e *engine) observeRC(cl *client) {
 			if rc.disconnectAt >= 0 && wi > rc.disconnectAt {
 				q.fail("client-frame-after-disconnect", "", fmt.Sprintf("c%d: RECV #%d written after the DISCONNECT frame was delivered to the caller", k, i), nil)
 				return
+			}
+			if res.pkt != nil {
+				rc.held = append(rc.held, heldRecv{pkt: res.pkt, write: wi, idx: i})
 			}
 		case "ping":
 			if res.err != nil {
